@@ -47,6 +47,39 @@ pub fn replace(args: &Args) -> Report {
         hays.extend(next.iter().cloned());
         frontier = next;
     }
+    // long haystacks with many matches, empty and very long replacements, > 256 patterns
+    {
+        let pats: Vec<Vec<u8>> = (0..300u32).map(|i| format!("k{:03}", i).into_bytes()).collect();
+        let repl_b: Vec<Vec<u8>> = (0..300usize).map(|i| if i % 3 == 0 { vec![] } else if i % 7 == 0 { vec![b'R'; 3000] } else { format!("<{}>", i).into_bytes() }).collect();
+        let repl_s: Vec<String> = repl_b.iter().map(|b| String::from_utf8(b.clone()).unwrap()).collect();
+        let mut h = String::new();
+        for i in 0..400u32 {
+            h.push_str(&format!("é{}k{:03}€", i, (i * 37) % 300));
+        }
+        for kind in [Kind::Std, Kind::LF] {
+            for engine in [Engine::TopAuto, Engine::LowContig] {
+                let cfg = Cfg { engine, sk: StartKindC::U, mk: kind, ci: false, pre: true, dd: None, bc: true };
+                if let Ok(b) = build(&cfg, &pats) {
+                    let ms = oracle::iter(&pats, false, kind, h.as_bytes(), 0, h.len(), false);
+                    let want = oracle::splice(h.as_bytes(), &ms, &repl_b);
+                    let got_b = catch_unwind(AssertUnwindSafe(|| match &b {
+                        Built::Top(t) => t.try_replace_all_bytes(h.as_bytes(), &repl_b).map_err(|e| e.to_string()),
+                        Built::C(a) => a.try_replace_all_bytes(h.as_bytes(), &repl_b).map_err(|e| e.to_string()),
+                        _ => Err("n/a".into()),
+                    }));
+                    let got_s = catch_unwind(AssertUnwindSafe(|| match &b {
+                        Built::Top(t) => t.try_replace_all(&h, &repl_s).map_err(|e| e.to_string()),
+                        Built::C(a) => a.try_replace_all(&h, &repl_s).map_err(|e| e.to_string()),
+                        _ => Err("n/a".into()),
+                    }));
+                    rep.case(true);
+                    if !matches!(&got_b, Ok(Ok(g)) if *g == want) || !matches!(&got_s, Ok(Ok(g)) if g.as_bytes() == &want[..]) {
+                        rfail(&rep, "replace_all on a long haystack with 300 patterns", &cfg, &pats[..3], &h.as_bytes()[..40], "output differs from the splice definition (or panic)".into());
+                    }
+                }
+            }
+        }
+    }
     par_for(&lists, |pats| {
         let repl_s: Vec<String> = (0..pats.len()).map(|i| format!("<{}ü>", i)).collect();
         let repl_b: Vec<Vec<u8>> = repl_s.iter().map(|s| s.as_bytes().to_vec()).collect();
@@ -87,7 +120,7 @@ pub fn replace(args: &Args) -> Report {
                     }
                     // closure variants with early stop after k matches: the remainder is copied verbatim
                     for stop in 0..=3usize {
-                        let mut want = vec![];
+                        let mut want = b"0123456789012345678901234567890123456789".to_vec();
                         let mut last = 0;
                         for (i, m) in ms.iter().enumerate() {
                             want.extend_from_slice(&hb[last..m.start]);
@@ -102,7 +135,7 @@ pub fn replace(args: &Args) -> Report {
                         want.extend_from_slice(&hb[last..]);
                         let mut seen: Vec<M> = vec![];
                         let got = catch_unwind(AssertUnwindSafe(|| {
-                            let mut dst = vec![];
+                            let mut dst = b"0123456789012345678901234567890123456789".to_vec();
                             let mut n = 0;
                             let f = |m: &aho_corasick::Match, bytes: &[u8], dst: &mut Vec<u8>| {
                                 seen.push(cv(*m));
@@ -125,9 +158,10 @@ pub fn replace(args: &Args) -> Report {
                             rfail(&rep, &format!("replace_all_with_bytes(stop after {})", stop + 1), &cfg, pats, hb, format!("expected '{}', got {:?}", show(&want), got.map(|r| r.map(|v| show(&v)))));
                         }
                     }
-                    // &str closure variant
+                    // &str closure variant, with a dst that already holds more than the haystack
+                    let prefix = "PRE-FILLED-DESTINATION-LONGER-THAN-THE-HAYSTACK:";
                     let got = catch_unwind(AssertUnwindSafe(|| {
-                        let mut dst = String::new();
+                        let mut dst = String::from(prefix);
                         let f = |m: &aho_corasick::Match, s: &str, dst: &mut String| {
                             dst.push('{');
                             dst.push_str(s);
@@ -143,7 +177,7 @@ pub fn replace(args: &Args) -> Report {
                         }
                         .map(|_| dst)
                     }));
-                    let mut want = vec![];
+                    let mut want = prefix.as_bytes().to_vec();
                     let mut last = 0;
                     for m in &ms_s {
                         want.extend_from_slice(&hb[last..m.start]);
@@ -353,6 +387,52 @@ pub fn meta(args: &Args) -> Report {
     let big = if thorough { 5000 } else { 1200 };
     lists.push((0..big as u32).map(|i| format!("{:x}-{}", i.wrapping_mul(2654435761), i).into_bytes()).collect());
     lists.extend(family("small", false, seed).lists.into_iter().step_by(5));
+    lists.push(vec![vec![b'x'; 256], vec![b'x'; 255], (0..70_000usize).map(|i| ((i * 7 + i / 3) % 251) as u8).collect()]);
+    lists.push((0..70_000u32).map(|i| format!("{:05x}", i).into_bytes()).collect());
+    // the same builder used twice, and pattern element types other than &[u8]
+    {
+        let pats = vec!["foo".to_string(), "barbaz".to_string(), "".to_string()];
+        let mut b = AhoCorasickBuilder::new();
+        b.match_kind(aho_corasick::MatchKind::LeftmostFirst).ascii_case_insensitive(true);
+        let r = catch_unwind(AssertUnwindSafe(|| {
+            let a1 = b.build(&pats).map_err(|e| e.to_string())?;
+            let a2 = b.build(pats.iter().map(|s| s.as_bytes().to_vec())).map_err(|e| e.to_string())?;
+            let a3 = AhoCorasick::new(pats.clone()).map_err(|e| e.to_string())?;
+            Ok::<_, String>((a1, a2, a3))
+        }));
+        rep.case(true);
+        match r {
+            Ok(Ok((a1, a2, a3))) => {
+                for (n, a) in [("first build", &a1), ("second build of the same builder", &a2), ("AhoCorasick::new(Vec<String>)", &a3)] {
+                    if a.patterns_len() != 3 || a.min_pattern_len() != 0 || a.max_pattern_len() != 6 {
+                        rep.fail(Fail { key: format!("meta:twice:{}", n), what: format!("{}: metadata {} {} {}", n, a.patterns_len(), a.min_pattern_len(), a.max_pattern_len()), argv: vec!["meta".into()] });
+                    }
+                }
+                if a1.kind() != a2.kind() || a1.match_kind() != a2.match_kind() || a1.find("xxBARBAZ").map(cv) != a2.find("xxBARBAZ").map(cv) {
+                    rep.fail(Fail { key: "meta:twice:differ".into(), what: "building twice from the same builder gives different searchers".into(), argv: vec!["meta".into()] });
+                }
+            }
+            other => rep.fail(Fail { key: "meta:twice:build".into(), what: format!("building twice / from owned pattern types failed: {:?}", other.map(|r| r.map(|_| ()))), argv: vec!["meta".into()] }),
+        }
+    }
+    // a large explicit contiguous NFA (encoding beyond 2^24 words, well inside the documented limits)
+    {
+        let mut rng = Rng(0x9E3779B97F4A7C15);
+        let pats: Vec<Vec<u8>> = (0..800).map(|_| (0..100).map(|_| (rng.next() >> 32) as u8).collect()).collect();
+        let r = catch_unwind(AssertUnwindSafe(|| {
+            AhoCorasickBuilder::new().kind(Some(AhoCorasickKind::ContiguousNFA)).match_kind(aho_corasick::MatchKind::LeftmostFirst)
+                .start_kind(StartKind::Both).dense_depth(usize::MAX).byte_classes(false).build(&pats)
+        }));
+        rep.case(true);
+        match r {
+            Ok(Ok(ac)) => {
+                if ac.kind() != AhoCorasickKind::ContiguousNFA || ac.patterns_len() != 800 || ac.find(&pats[799]).map(cv) != Some(M { pid: 799, start: 0, end: 100 }) {
+                    rep.fail(Fail { key: "meta:bigcontig:meta".into(), what: "large contiguous NFA: wrong kind/metadata/self-search".into(), argv: vec!["meta".into()] });
+                }
+            }
+            other => rep.fail(Fail { key: "meta:bigcontig:build".into(), what: format!("800 random 100-byte patterns, explicit ContiguousNFA, dense_depth(MAX), byte_classes(false): build failed or panicked: {:?}", other.map(|r| r.map(|_| ()).map_err(|e| e.to_string()))), argv: vec!["meta".into()] }),
+        }
+    }
     par_for(&lists, |pats| {
         let mut combos = vec![];
         for mk in [Kind::Std, Kind::LF, Kind::LL] {
@@ -366,7 +446,11 @@ pub fn meta(args: &Args) -> Report {
             if pats.len() > 1000 && (kind == &Some(AhoCorasickKind::DFA) && !thorough) && ci_idx % 3 != 0 {
                 continue;
             }
-            for opt in 0..(if pats.len() > 300 { 2 } else { 6 }) {
+            let total: usize = pats.iter().map(|p| p.len()).sum();
+            if total > 20_000 && (kind.is_some() || ci_idx % 9 != 0) {
+                continue;   // very large collections: automatic kind, a few combinations only
+            }
+            for opt in 0..(if pats.len() > 300 || total > 20_000 { 2 } else { 6 }) {
                 let (ci, pre, bc, dd) = match opt {
                     0 => (false, true, true, None),
                     1 => (true, false, false, Some(0)),
